@@ -4,6 +4,8 @@
 From CG Require Import Model.Metrics Model.Slice Model.Loop Model.Recur Model.Cache.
 
 From CG Require Import Model.Small.
+From CG Require Import Model.LoopMem.
+
 
 (* calgebra/interval.py: Interval.finite_start *)
 Definition g_finite_start (self : ivl) : Z :=
@@ -990,14 +992,14 @@ Definition g_recur_occurrence_to_interval {DT : Type} {TD : Type} (self_start_se
 (* calgebra/metrics.py: _period_windows_with_dt *)
 Definition g_period_windows_dt {DT : Type} {TD : Type} (fuel : nat) (p_fromtimestamp : Z -> DT) (p_ymd : Z -> Z -> Z -> DT) (p_ymdh : Z -> Z -> Z -> Z -> DT) (p_hours : Z -> TD) (p_days : Z -> TD) (p_weeks : Z -> TD) (p_add : DT -> TD -> DT) (p_sub : DT -> TD -> DT) (p_lt : DT -> DT -> bool) (p_timestamp : DT -> Z) (p_weekday : DT -> Z) (p_year : DT -> Z) (p_month : DT -> Z) (p_day : DT -> Z) (p_hour : DT -> Z) (start_ts : Z) (end_ts : Z) (period : Metrics.period) : res (list ((DT * Z * Z))) :=
   if (start_ts >=? end_ts) then
-    (RDone (@nil (DT * Z * Z)))
+    (RDone (@nil ((DT * Z * Z))))
   else
     let zone := tt in
     let start_dt := (p_fromtimestamp start_ts) in
     let end_dt := (p_fromtimestamp end_ts) in
     match period with
     | Metrics.PHour =>
-      let windows := (@nil (DT * Z * Z)) in
+      let windows := (@nil ((DT * Z * Z))) in
       let current := (p_ymdh (p_year start_dt) (p_month start_dt) (p_day start_dt) (p_hour start_dt)) in
       iter_while fuel
         (fun '(windows, current) => (p_lt current end_dt))
@@ -1012,7 +1014,7 @@ Definition g_period_windows_dt {DT : Type} {TD : Type} (fuel : nat) (p_fromtimes
           (RDone windows))
         (windows, current)
     | Metrics.PDay =>
-      let windows := (@nil (DT * Z * Z)) in
+      let windows := (@nil ((DT * Z * Z))) in
       let current := (p_ymd (p_year start_dt) (p_month start_dt) (p_day start_dt)) in
       iter_while fuel
         (fun '(windows, current) => (p_lt current end_dt))
@@ -1027,7 +1029,7 @@ Definition g_period_windows_dt {DT : Type} {TD : Type} (fuel : nat) (p_fromtimes
           (RDone windows))
         (windows, current)
     | Metrics.PWeek =>
-      let windows := (@nil (DT * Z * Z)) in
+      let windows := (@nil ((DT * Z * Z))) in
       let days_since_monday := (p_weekday start_dt) in
       let week_start := (p_sub (p_ymd (p_year start_dt) (p_month start_dt) (p_day start_dt)) (p_days days_since_monday)) in
       let current := week_start in
@@ -1044,7 +1046,7 @@ Definition g_period_windows_dt {DT : Type} {TD : Type} (fuel : nat) (p_fromtimes
           (RDone windows))
         (windows, current)
     | Metrics.PMonth =>
-      let windows := (@nil (DT * Z * Z)) in
+      let windows := (@nil ((DT * Z * Z))) in
       let current := (p_ymd (p_year start_dt) (p_month start_dt) 1) in
       iter_while fuel
         (fun '(windows, current) => (p_lt current end_dt))
@@ -1065,7 +1067,7 @@ Definition g_period_windows_dt {DT : Type} {TD : Type} (fuel : nat) (p_fromtimes
           (RDone windows))
         (windows, current)
     | Metrics.PYear =>
-      let windows := (@nil (DT * Z * Z)) in
+      let windows := (@nil ((DT * Z * Z))) in
       let current := (p_ymd (p_year start_dt) 1 1) in
       iter_while fuel
         (fun '(windows, current) => (p_lt current end_dt))
@@ -1347,3 +1349,231 @@ Definition g_cache_get_key {FV : Type} (self_key_fields : option ((list N))) (iv
     | Some v_ => (RDone (Some v_))
     | None => (RRaise TypeError)
     end.
+
+(* calgebra/mutable/memory.py: _interval_sort_key *)
+Definition g_interval_sort_key (interval_ : ivl) : (Z * Z) :=
+  ((fstart interval_), (fend interval_)).
+
+(* calgebra/mutable/memory.py: MemoryTimeline.fetch *)
+Definition g_mem_fetch {ID : Type} {PAT : Type} (pattern_fetch : PAT -> option Z -> option Z -> bool -> list ivl) (self_static_intervals : list ivl) (self_recurring_patterns : list ((ID * PAT))) (start : option Z) (end_ : option Z) (reverse : bool) : list ivl :=
+  let iterators := (@nil (list ivl)) in
+  iter_for
+    (fun iterators '(_, pattern) =>
+      let iterators := (iterators ++ [(pattern_fetch pattern start end_ reverse)]) in
+      (SCont iterators))
+    (fun iterators =>
+      let iterators :=
+        if (nonempty self_static_intervals) then
+          let iterators := (iterators ++ [(g_mem_fetch_static self_static_intervals start end_ reverse)]) in
+          iterators
+        else
+          iterators in
+      if reverse then
+        (merge_by lt_rev iterators)
+      else
+        (merge_by lt_fwd iterators))
+    iterators self_recurring_patterns.
+
+(* calgebra/mutable/memory.py: MemoryTimeline._remove_recurring_instance *)
+Definition g_mem_remove_recurring_instance {ID : Type} {PAT : Type} {EXS : Type} (recurring_id_of : ivl -> option ID) (id_truthy : ID -> bool) (id_eqb : ID -> ID -> bool) (pattern_fetch : PAT -> option Z -> option Z -> bool -> list ivl) (pattern_exdates : PAT -> EXS) (exs_add : EXS -> Z -> EXS) (pattern_set_exdates : PAT -> EXS -> PAT) (self_recurring_patterns : list ((ID * PAT))) (interval_ : ivl) : (list ((ID * PAT)) * (list wres)) :=
+  let recurring_id := (recurring_id_of interval_) in
+  if (is_none recurring_id) then
+    (self_recurring_patterns, [(mkWR false (Some interval_) (Some ValueError))])
+  else
+    iter_for
+      (fun self_recurring_patterns '(i_, (stored_id, pattern)) =>
+        if (eq_opt id_eqb stored_id recurring_id) then
+          if (is_none (st interval_)) then
+            (SRet (self_recurring_patterns, [(mkWR false (Some interval_) (Some ValueError))]))
+          else
+            if (negb (existsb (fun occ => (oZ_eqb (st occ) (st interval_))) (pattern_fetch pattern (st interval_) (Some ((ozd (st interval_)) + 1)) false))) then
+              (SRet (self_recurring_patterns, [(mkWR false (Some interval_) (Some ValueError))]))
+            else
+              let pattern := (pattern_set_exdates pattern (exs_add (pattern_exdates pattern) (ozd (st interval_)))) in
+              let self_recurring_patterns := (py_set_index self_recurring_patterns i_ (stored_id, pattern)) in
+              (SRet (self_recurring_patterns, [(mkWR true (Some interval_) None)]))
+        else
+          (SCont self_recurring_patterns))
+      (fun self_recurring_patterns =>
+        (self_recurring_patterns, [(mkWR false (Some interval_) (Some ValueError))]))
+      self_recurring_patterns (py_enumerate self_recurring_patterns).
+
+(* calgebra/mutable/memory.py: MemoryTimeline._remove_interval *)
+Definition g_mem_remove_interval {ID : Type} {PAT : Type} {EXS : Type} (recurring_id_of : ivl -> option ID) (id_truthy : ID -> bool) (id_eqb : ID -> ID -> bool) (pattern_fetch : PAT -> option Z -> option Z -> bool -> list ivl) (pattern_exdates : PAT -> EXS) (exs_add : EXS -> Z -> EXS) (pattern_set_exdates : PAT -> EXS -> PAT) (self_static_intervals : list ivl) (self_recurring_patterns : list ((ID * PAT))) (interval_ : ivl) : (list ivl * list ((ID * PAT)) * (list wres)) :=
+  if (existsb (ivl_eqb interval_) self_static_intervals) then
+    let self_static_intervals := (sl_remove interval_ self_static_intervals) in
+    (self_static_intervals, self_recurring_patterns, [(mkWR true (Some interval_) None)])
+  else
+    let recurring_id := (recurring_id_of interval_) in
+    if (truthy_opt id_truthy recurring_id) then
+      let '(self_recurring_patterns, r1_) := (g_mem_remove_recurring_instance recurring_id_of id_truthy id_eqb pattern_fetch pattern_exdates exs_add pattern_set_exdates self_recurring_patterns interval_) in
+      (self_static_intervals, self_recurring_patterns, r1_)
+    else
+      (self_static_intervals, self_recurring_patterns, [(mkWR false (Some interval_) (Some ValueError))]).
+
+(* calgebra/mutable/memory.py: MemoryTimeline._remove_series *)
+Definition g_mem_remove_series {ID : Type} {PAT : Type} {EXS : Type} (recurring_id_of : ivl -> option ID) (id_truthy : ID -> bool) (id_eqb : ID -> ID -> bool) (pattern_fetch : PAT -> option Z -> option Z -> bool -> list ivl) (pattern_exdates : PAT -> EXS) (exs_add : EXS -> Z -> EXS) (pattern_set_exdates : PAT -> EXS -> PAT) (self_static_intervals : list ivl) (self_recurring_patterns : list ((ID * PAT))) (interval_ : ivl) : (list ivl * list ((ID * PAT)) * (list wres)) :=
+  let recurring_id := (recurring_id_of interval_) in
+  if (is_none recurring_id) then
+    let '(self_static_intervals, self_recurring_patterns, r1_) := (g_mem_remove_interval recurring_id_of id_truthy id_eqb pattern_fetch pattern_exdates exs_add pattern_set_exdates self_static_intervals self_recurring_patterns interval_) in
+    (self_static_intervals, self_recurring_patterns, r1_)
+  else
+    iter_for
+      (fun self_recurring_patterns '(i, (pattern_id, _)) =>
+        if (eq_opt id_eqb pattern_id recurring_id) then
+          let self_recurring_patterns := (py_pop self_recurring_patterns i) in
+          (SRet (self_static_intervals, self_recurring_patterns, [(mkWR true None None)]))
+        else
+          (SCont self_recurring_patterns))
+      (fun self_recurring_patterns =>
+        (self_static_intervals, self_recurring_patterns, [(mkWR false None (Some ValueError))]))
+      self_recurring_patterns (py_enumerate self_recurring_patterns).
+
+(* calgebra/mutable/memory.py: MemoryTimeline._remove_many *)
+Definition g_mem_remove_many {ID : Type} {PAT : Type} {EXS : Type} (recurring_id_of : ivl -> option ID) (id_truthy : ID -> bool) (id_eqb : ID -> ID -> bool) (pattern_fetch : PAT -> option Z -> option Z -> bool -> list ivl) (pattern_exdates : PAT -> EXS) (exs_add : EXS -> Z -> EXS) (pattern_set_exdates : PAT -> EXS -> PAT) (self_static_intervals : list ivl) (self_recurring_patterns : list ((ID * PAT))) (intervals : list ivl) : (list ivl * list ((ID * PAT)) * (list wres)) :=
+  let results := (@nil wres) in
+  iter_for
+    (fun '(results, self_static_intervals, self_recurring_patterns) interval_ =>
+      let '(self_static_intervals, self_recurring_patterns, r1_) := (g_mem_remove_interval recurring_id_of id_truthy id_eqb pattern_fetch pattern_exdates exs_add pattern_set_exdates self_static_intervals self_recurring_patterns interval_) in
+      let results := (results ++ r1_) in
+      (SCont (results, self_static_intervals, self_recurring_patterns)))
+    (fun '(results, self_static_intervals, self_recurring_patterns) =>
+      (self_static_intervals, self_recurring_patterns, results))
+    (results, self_static_intervals, self_recurring_patterns) intervals.
+
+(* calgebra/mutable/memory.py: MemoryTimeline._remove_many_series *)
+Definition g_mem_remove_many_series {ID : Type} {PAT : Type} {EXS : Type} (recurring_id_of : ivl -> option ID) (id_truthy : ID -> bool) (id_eqb : ID -> ID -> bool) (pattern_fetch : PAT -> option Z -> option Z -> bool -> list ivl) (pattern_exdates : PAT -> EXS) (exs_add : EXS -> Z -> EXS) (pattern_set_exdates : PAT -> EXS -> PAT) (self_static_intervals : list ivl) (self_recurring_patterns : list ((ID * PAT))) (intervals : list ivl) : (list ivl * list ((ID * PAT)) * (list wres)) :=
+  let results := (@nil wres) in
+  iter_for
+    (fun '(results, self_static_intervals, self_recurring_patterns) interval_ =>
+      let '(self_static_intervals, self_recurring_patterns, r1_) := (g_mem_remove_series recurring_id_of id_truthy id_eqb pattern_fetch pattern_exdates exs_add pattern_set_exdates self_static_intervals self_recurring_patterns interval_) in
+      let results := (results ++ r1_) in
+      (SCont (results, self_static_intervals, self_recurring_patterns)))
+    (fun '(results, self_static_intervals, self_recurring_patterns) =>
+      (self_static_intervals, self_recurring_patterns, results))
+    (results, self_static_intervals, self_recurring_patterns) intervals.
+
+(* calgebra/mutable/memory.py: MemoryTimeline._add_interval *)
+Definition g_mem_add_interval {KEY : Type} {VAL : Type} (key_eqb : KEY -> KEY -> bool) (replace_fields : ivl -> list (KEY * option VAL) -> ivl) (self_metadata : list (KEY * option VAL)) (self_static_intervals : list ivl) (interval_ : ivl) (metadata : list (KEY * option VAL)) : (list ivl * (list wres)) :=
+  let merged := metadata in
+  iter_for
+    (fun merged '(key_, value) =>
+      if (is_none (dict_get_opt key_eqb key_ merged)) then
+        let merged := (dict_set key_eqb key_ value merged) in
+        (SCont merged)
+      else
+        (SCont merged))
+    (fun merged =>
+      let interval_with_metadata := (if (nonempty merged) then (replace_fields interval_ merged) else interval_) in
+      let self_static_intervals := (sl_add interval_with_metadata self_static_intervals) in
+      (self_static_intervals, [(mkWR true (Some interval_with_metadata) None)]))
+    merged self_metadata.
+
+(* calgebra/mutable/memory.py: MemoryTimeline._add_recurring *)
+Definition g_mem_add_recurring {ID : Type} {PAT : Type} {KEY : Type} {VAL : Type} {START : Type} {TZ : Type} (key_eqb : KEY -> KEY -> bool) (make_id : PAT -> N -> ID) (pattern_metadata : PAT -> list (KEY * option VAL)) (class_has_annotations : PAT -> bool) (class_annotations : PAT -> list KEY) (key_recurring_event_id : KEY) (val_of_id : ID -> VAL) (anchor_start : PAT -> START) (anchor_tz : PAT -> TZ) (make_pattern : PAT -> START -> TZ -> list (KEY * option VAL) -> PAT) (self_metadata : list (KEY * option VAL)) (self_recurring_patterns : list ((ID * PAT))) (self_series_seq : N) (pattern : PAT) (metadata : list (KEY * option VAL)) : (list ((ID * PAT)) * N * (list wres)) :=
+  let self_series_seq := (N_plus_Z self_series_seq 1) in
+  let recurring_id := (make_id pattern self_series_seq) in
+  let merged_metadata := (pattern_metadata pattern) in
+  iter_for
+    (fun merged_metadata '(key_, value) =>
+      if (is_none (dict_get_opt key_eqb key_ merged_metadata)) then
+        let merged_metadata := (dict_set key_eqb key_ value merged_metadata) in
+        (SCont merged_metadata)
+      else
+        (SCont merged_metadata))
+    (fun merged_metadata =>
+      let merged_metadata := (dict_update key_eqb merged_metadata metadata) in
+      let interval_fields := (@nil KEY) in
+      let interval_fields :=
+        if (class_has_annotations pattern) then
+          let interval_fields := (class_annotations pattern) in
+          interval_fields
+        else
+          interval_fields in
+      let merged_metadata :=
+        if (existsb (key_eqb key_recurring_event_id) interval_fields) then
+          let merged_metadata := (dict_set key_eqb key_recurring_event_id (Some (val_of_id recurring_id)) merged_metadata) in
+          merged_metadata
+        else
+          merged_metadata in
+      let start := (anchor_start pattern) in
+      let tz := (anchor_tz pattern) in
+      let enriched_pattern := (make_pattern pattern start tz merged_metadata) in
+      let self_recurring_patterns := (self_recurring_patterns ++ [(recurring_id, enriched_pattern)]) in
+      (self_recurring_patterns, self_series_seq, [(mkWR true None None)]))
+    merged_metadata self_metadata.
+
+(* calgebra/mutable/__init__.py: MutableTimeline.remove *)
+Definition g_mt_remove {ST : Type} (remove_interval : ST -> ivl -> ST * list wres) (remove_many : ST -> list ivl -> ST * list wres) (self_state : ST) (items : remitem) : (ST * (list wres)) :=
+  match items with
+  | RIvl items_i =>
+    let '(self_state, r1_) := (remove_interval self_state items_i) in
+    (self_state, r1_)
+  | RMany items_l =>
+    let '(self_state, r2_) := (remove_many self_state items_l) in
+    (self_state, r2_)
+  end.
+
+(* calgebra/mutable/__init__.py: MutableTimeline.remove_series *)
+Definition g_mt_remove_series {ST : Type} (remove_series : ST -> ivl -> ST * list wres) (remove_many_series : ST -> list ivl -> ST * list wres) (self_state : ST) (items : remitem) : (ST * (list wres)) :=
+  match items with
+  | RIvl items_i =>
+    let '(self_state, r1_) := (remove_series self_state items_i) in
+    (self_state, r1_)
+  | RMany items_l =>
+    let '(self_state, r2_) := (remove_many_series self_state items_l) in
+    (self_state, r2_)
+  end.
+
+(* calgebra/mutable/__init__.py: MutableTimeline.add *)
+Definition g_mt_add {ST : Type} {PAT : Type} {KEY : Type} {VAL : Type} (key_eqb : KEY -> KEY -> bool) (vars_of : ivl -> list (KEY * option VAL)) (add_interval : ST -> ivl -> list (KEY * option VAL) -> ST * list wres) (add_recurring : ST -> PAT -> list (KEY * option VAL) -> ST * list wres) (add_many : ST -> list ivl -> list (KEY * option VAL) -> ST * list wres) (self_state : ST) (item : (additem PAT)) (metadata : list (KEY * option VAL)) : res (ST * (list wres)) :=
+  match item with
+  | AIvl item_i =>
+    let '(self_state, r1_) := (add_interval self_state item_i (dict_update key_eqb (vars_of item_i) metadata)) in
+    (RDone (self_state, r1_))
+  | APat item_p =>
+    let '(self_state, r2_) := (add_recurring self_state item_p metadata) in
+    (RDone (self_state, r2_))
+  | ATimeline =>
+    (RRaise ValueError)
+  | AMany item_l =>
+    let '(self_state, r3_) := (add_many self_state item_l metadata) in
+    (RDone (self_state, r3_))
+  end.
+
+(* calgebra/mutable/__init__.py: MutableTimeline._add_many *)
+Definition g_mt_add_many {ST : Type} {KEY : Type} {VAL : Type} (key_eqb : KEY -> KEY -> bool) (vars_of : ivl -> list (KEY * option VAL)) (add_interval : ST -> ivl -> list (KEY * option VAL) -> ST * list wres) (self_state : ST) (intervals : list ivl) (metadata : list (KEY * option VAL)) : (ST * (list wres)) :=
+  let results := (@nil wres) in
+  iter_for
+    (fun '(results, self_state) interval_ =>
+      let merged_metadata := (dict_update key_eqb (vars_of interval_) metadata) in
+      let '(self_state, r1_) := (add_interval self_state interval_ merged_metadata) in
+      let results := (results ++ r1_) in
+      (SCont (results, self_state)))
+    (fun '(results, self_state) =>
+      (self_state, results))
+    (results, self_state) intervals.
+
+(* calgebra/mutable/__init__.py: MutableTimeline._remove_many *)
+Definition g_mt_remove_many {ST : Type} (remove_interval : ST -> ivl -> ST * list wres) (self_state : ST) (intervals : list ivl) : (ST * (list wres)) :=
+  let results := (@nil wres) in
+  iter_for
+    (fun '(results, self_state) interval_ =>
+      let '(self_state, r1_) := (remove_interval self_state interval_) in
+      let results := (results ++ r1_) in
+      (SCont (results, self_state)))
+    (fun '(results, self_state) =>
+      (self_state, results))
+    (results, self_state) intervals.
+
+(* calgebra/mutable/__init__.py: MutableTimeline._remove_many_series *)
+Definition g_mt_remove_many_series {ST : Type} (remove_series : ST -> ivl -> ST * list wres) (self_state : ST) (intervals : list ivl) : (ST * (list wres)) :=
+  let results := (@nil wres) in
+  iter_for
+    (fun '(results, self_state) interval_ =>
+      let '(self_state, r1_) := (remove_series self_state interval_) in
+      let results := (results ++ r1_) in
+      (SCont (results, self_state)))
+    (fun '(results, self_state) =>
+      (self_state, results))
+    (results, self_state) intervals.
